@@ -109,6 +109,7 @@ class Prov:
 ALLOWED_OPTION_ORIGINS = {
     ("default", "RegexBuilder::new"): "the builder starts from defaults and its setters mutate that object",
     ("literal:RegexOptions", "Regex::new"): "Regex::new = defaults + pattern",
+    ("literal:RegexOptions", "RegexBuilder::new"): "the same starting object written as a struct literal (`RegexOptions { pattern, ..Default::default() }`); the setters mutate it",
 }
 DEBUG_API = {"compile::compile": "doc(hidden) internal::compile for the toy example: documented to use default options",
              "vm::run_default": "doc(hidden) debugging helper", "vm::run_trace": "doc(hidden) debugging helper"}
